@@ -36,8 +36,8 @@ var fxSessionValueFields = map[string]string{
 
 func init() {
 	Register(&Rule{ID: "R-FMT-11", Props: []string{"C02"}, Floor: 1,
-		Doc:      "every EncodeView call in lib/query whose writer may be the --out file (an origin of the writer argument is (*Session).OutFile()) is handed options that are a local variable in which Color is set to the constant false on every path on which the writer is the out file (the store is in the block that takes the out file, dominates it, or lies on every path from there to the call), and no other value is ever stored into that field. A result set written to a file carries no terminal escape sequences: `--color -P -f JSON -o out.json` has to produce a file that loads again",
-		Controls: []string{"CtlOutFileKeepsSessionColor", "CtlOutFileColorOffForTerminalOnly"},
+		Doc:      "every EncodeView call in lib/query whose writer may be the --out file (an origin of the writer argument is (*Session).OutFile(); a writer or options parameter of a private helper — every caller a static call site — is followed to the argument of each calling context) is handed options that are a local variable in which Color is set to the constant false on every path on which the writer is the out file (the store is in the block that takes the out file, dominates it, or lies on every path from there to the call), and no other value is ever stored into that field. A result set written to a file carries no terminal escape sequences: `--color -P -f JSON -o out.json` has to produce a file that loads again",
+		Controls: []string{"CtlOutFileKeepsSessionColor", "CtlOutFileColorOffForTerminalOnly", "CtlOutFileHelperKeepsSessionColor"},
 		Run:      ruleFmt11})
 }
 
@@ -190,6 +190,8 @@ func ruleFmt11(c *Ctx) {
 	if c.Fn(fxEncodeView) == nil || c.Fn("lib/query.(*Session).OutFile") == nil {
 		return
 	}
+	start := len(c.Obs)
+	defer func() { c.negControls(start, "okOutFileHelperColorOff") }()
 	perFn := map[*ssa.Function]int{}
 	for _, fn := range c.P.FuncsIn(true, "lib/query") {
 		if c.P.IsControl(fn) && !strings.Contains(fn.Name(), "OutFile") {
@@ -200,84 +202,118 @@ func ruleFmt11(c *Ctx) {
 			if len(args) < 4 {
 				continue
 			}
-			var takes []*ssa.Call // the OutFile() calls whose result becomes the writer
 			// (a result encoded into a local buffer first reaches the streams the buffer is written to)
 			streams, _ := fxBufferedWriters(c, fn, args[1])
+			// the stream may be a parameter of a private helper: it is what each caller hands over,
+			// and each calling context is judged in the function that decides the writer
+			var ctxs []fxCtxVal
 			for _, w := range streams {
-				for _, o := range core.Origins(w, true) {
+				for _, x := range fxLift(c, w, fn, 3) {
+					dup := false
+					for _, y := range ctxs {
+						if y.V == x.V && y.Fn == x.Fn && len(y.Chain) == len(x.Chain) && (len(x.Chain) == 0 || x.Chain[0] == y.Chain[0]) {
+							dup = true
+						}
+					}
+					if !dup {
+						ctxs = append(ctxs, x)
+					}
+				}
+			}
+			for _, ctx := range ctxs {
+				var takes []*ssa.Call // the OutFile() calls whose result becomes the writer
+				for _, o := range core.Origins(ctx.V, true) {
 					if oc, _ := fxCallOf(o); oc != nil && c.P.CalleeName(oc) == "lib/query.(*Session).OutFile" {
 						takes = append(takes, oc)
 					}
 				}
-			}
-			if len(takes) == 0 {
-				continue
-			}
-			c.Sites++
-			c.Touch(fn)
-			perFn[fn]++
-			key := c.KeyAt(fn, fmt.Sprintf("EncodeView into the --out file #%d: Color off", perFn[fn]))
-			in := call.(ssa.Instruction)
-			ld, ok := args[3].(*ssa.UnOp)
-			var cell *ssa.Alloc
-			if ok {
-				cell, _ = ld.X.(*ssa.Alloc)
-			}
-			if cell == nil || !types.Identical(cell.Type().Underlying().(*types.Pointer).Elem(), args[3].Type()) {
-				c.Bad(key, c.Pos(in), fmt.Sprintf("the options argument is %s, not a local copy in which Color is switched off: the result set goes to the --out file with the session's Color — %s", valueLabel(args[3]), fxFileConstWhy["Color"]))
-				continue
-			}
-			var stores []*ssa.Store
-			for _, r := range *cell.Referrers() {
-				fa, ok := r.(*ssa.FieldAddr)
-				if !ok || core.FieldName(fa) != "Color" {
+				if len(takes) == 0 {
 					continue
 				}
-				for _, rr := range *fa.Referrers() {
-					if st, ok := rr.(*ssa.Store); ok && st.Addr == fa {
-						stores = append(stores, st)
+				host := ctx.Fn
+				c.Sites++
+				c.Touch(fn)
+				c.Touch(host)
+				perFn[host]++
+				key := c.KeyAt(host, fmt.Sprintf("EncodeView into the --out file #%d: Color off", perFn[host]))
+				// the options as far up the same calls as they are handed down
+				opts, lvl := fxMapUp(ctx.Chain, args[3], len(ctx.Chain))
+				// the instruction that stands for the encode in the function that holds the options
+				in := call.(ssa.Instruction)
+				if lvl < len(ctx.Chain) {
+					in = ctx.Chain[lvl].(ssa.Instruction)
+				}
+				ld, ok := opts.(*ssa.UnOp)
+				var cell *ssa.Alloc
+				if ok {
+					cell, _ = ld.X.(*ssa.Alloc)
+				}
+				if cell == nil || !types.Identical(cell.Type().Underlying().(*types.Pointer).Elem(), opts.Type()) {
+					c.Bad(key, c.Pos(in), fmt.Sprintf("the options argument is %s, not a local copy in which Color is switched off: the result set goes to the --out file with the session's Color — %s", valueLabel(opts), fxFileConstWhy["Color"]))
+					continue
+				}
+				var stores []*ssa.Store
+				for _, r := range *cell.Referrers() {
+					fa, ok := r.(*ssa.FieldAddr)
+					if !ok || core.FieldName(fa) != "Color" {
+						continue
+					}
+					for _, rr := range *fa.Referrers() {
+						if st, ok := rr.(*ssa.Store); ok && st.Addr == fa {
+							stores = append(stores, st)
+						}
 					}
 				}
-			}
-			bad := ""
-			for _, st := range stores {
-				if !fxConstFalse(st.Val) {
-					bad = fmt.Sprintf("%s is stored into the options' Color at %s", valueLabel(st.Val), c.Pos(st))
+				bad := ""
+				for _, st := range stores {
+					if !fxConstFalse(st.Val) {
+						bad = fmt.Sprintf("%s is stored into the options' Color at %s", valueLabel(st.Val), c.Pos(st))
+					}
 				}
-			}
-			isOff := func(i ssa.Instruction) bool {
-				st, ok := i.(*ssa.Store)
-				if !ok {
+				isOff := func(i ssa.Instruction) bool {
+					st, ok := i.(*ssa.Store)
+					if !ok {
+						return false
+					}
+					for _, s := range stores {
+						if s == st {
+							return true
+						}
+					}
 					return false
 				}
-				for _, s := range stores {
-					if s == st {
-						return true
+				for _, take := range takes {
+					if bad != "" {
+						break
+					}
+					ok := false
+					if lvl == 0 {
+						for _, st := range stores {
+							if st.Block() == take.Block() || core.Dominates(st, take) {
+								ok = true
+							}
+						}
+						if !ok && len(stores) > 0 && !core.Reachable(take, in, isOff) {
+							ok = true
+						}
+					} else {
+						// the options are a local of a helper below the function that takes the out file:
+						// Color has to be off whatever the writer is
+						for _, st := range stores {
+							if core.Dominates(st, in) {
+								ok = true
+							}
+						}
+					}
+					if !ok {
+						bad = fmt.Sprintf("on the path that takes the out file as writer (%s) nothing sets the options' Color to false before the call", c.Pos(take))
 					}
 				}
-				return false
-			}
-			for _, take := range takes {
 				if bad != "" {
-					break
+					c.Bad(key, c.Pos(in), bad+": the result set is written to the --out file with the session's Color — "+fxFileConstWhy["Color"])
+				} else {
+					c.Ok(key, c.Pos(in), fmt.Sprintf("Color is set to false on every path on which the writer is the out file (%d store(s), all constant false)", len(stores)))
 				}
-				ok := false
-				for _, st := range stores {
-					if st.Block() == take.Block() || core.Dominates(st, take) {
-						ok = true
-					}
-				}
-				if !ok && len(stores) > 0 && !core.Reachable(take, in, isOff) {
-					ok = true
-				}
-				if !ok {
-					bad = fmt.Sprintf("on the path that takes the out file as writer (%s) nothing sets the options' Color to false before the call", c.Pos(take))
-				}
-			}
-			if bad != "" {
-				c.Bad(key, c.Pos(in), bad+": the result set is written to the --out file with the session's Color — "+fxFileConstWhy["Color"])
-			} else {
-				c.Ok(key, c.Pos(in), fmt.Sprintf("Color is set to false on every path on which the writer is the out file (%d store(s), all constant false)", len(stores)))
 			}
 		}
 	}
